@@ -219,6 +219,22 @@ def _save_file(
         tensor_shards = _shard_tensors(tensors_to_save, max_shard_size_bytes)
         total_shards = len(tensor_shards)
 
+        # A tensor that reads from one of the files about to be written (a model saved over
+        # itself) is loaded to memory first, or its data would be gone before it is copied
+        destination_paths = {
+            os.path.realpath(
+                os.path.join(base_dir, _get_shard_filename(str(location), shard_idx, total_shards))
+            )
+            for shard_idx in range(1, total_shards + 1)
+        }
+        for tensor_shard in tensor_shards:
+            for i, tensor in enumerate(tensor_shard):
+                if (
+                    isinstance(tensor, ir.ExternalTensor)
+                    and os.path.realpath(tensor.path) in destination_paths
+                ):
+                    tensor_shard[i] = ir.external_data.convert_tensors_from_external([tensor])[0]
+
         # Save each shard, loading only necessary tensor data
         all_filenames = []
         weight_map: dict[str, str] = {}  # Maps tensor name to shard filename
